@@ -39,6 +39,17 @@ def classify(v):
         return None
     if v.tags.get('const') == 'eye':
         return 'I'
+    es = v.tags.get('einsum')
+    if es:
+        # einsum('kl,ij->kijl', eye(r), B): the block-diagonal arrangement of r copies of B (same as the loop  core[a+j, :, :, b+j] = B)
+        pat, ops = es
+        ins, out = pat.split('->')
+        ins = ins.split(',')
+        if len(ops) == 2 and len(set(pat.replace(',', '').replace('->', ''))) == 4 and len(out) == 4:
+            for e_, b_ in ((0, 1), (1, 0)):
+                if isinstance(ops[e_], Arr) and ops[e_].tags.get('const') == 'eye' and len(ins[e_]) == 2 and len(ins[b_]) == 2 and \
+                        out[0] == ins[e_][0] and out[3] == ins[e_][1] and out[1:3] == ins[b_]:
+                    return classify(ops[b_])
     anc = A.ancestors([v])
     roles = {}
     for a in anc.values():
@@ -96,10 +107,13 @@ def chain_terms(cores):
             if r is None or cc is None or st['sel'][1] != ('all',) or st['sel'][2] != ('all',):
                 probs.append(f'core {k}: store {st["sel"]} is not a (rank block, full mode, full mode, rank block) store')
                 continue
+            if (r[2] is None and sz_eq(r[0], r[1])) or (cc[2] is None and sz_eq(cc[0], cc[1])):
+                continue            # an empty block (e.g. the cyclic pass-through of an open chain): nothing is stored
             sym = classify(st['value'])
             if sym is None:
-                probs.append(f'core {k}: the block stored at {st["sel"]} is not one of the SLIM building blocks (identity, single-site term, left/right factor of a two-site term)')
-                continue
+                # the provenance of the block is not one the analysis understands: that is no evidence of a defect
+                raise AnalysisError(f'core {k}: the block stored at {st["sel"]} is computed in a way the SLIM block classifier does not recognise '
+                                    f'(identity, single-site operator sum, left/right SVD factor of a two-site super-core)')
             if sym == 'zero':
                 continue
             if (r[2] is None) != (cc[2] is None) or (r[2] is not None and r[2] is not cc[2]):
@@ -263,33 +277,42 @@ def check(repo, tier):
 
 
 def index_source(v):
-    """where an integer index value comes from: ('transitions', row) | ('unique', k) [k-th row of the unique pairs] | ('inverse',) | ('loop',) | None"""
+    """where an integer index value comes from: ('transitions', row, offset) | ('unique', k, offset, rows) [k-th row of the unique pairs] |
+    ('inverse', of, offset) | None.  Element-wise arithmetic commutes with taking an element, so  (A - 1)[i]  and  A[i] - 1  are the same source."""
     off = 0
     seen = 0
-    while isinstance(v, Arr) and seen < 20:
+    pending_row = None          # a 1-D vector that is row r of a 2-D root
+    while isinstance(v, Arr) and seen < 30:
         seen += 1
         ex = v.tags.get('expr')
-        if ex and ex[0] in ('sub', 'add') and isinstance(ex[1][1], int):
+        if ex and ex[0] in ('sub', 'add') and isinstance(ex[1][1], int) and isinstance(ex[1][0], Arr):
             off += -ex[1][1] if ex[0] == 'sub' else ex[1][1]
             v = ex[1][0]
             continue
         so = v.tags.get('sel_of')
         if so:
             root, sel = so
-            if root.tags.get('role') == 'transitions' and sel[0][0] == 'int':
-                return ('transitions', sel[0][1], off)
-            if 'unique_of' in root.tags and sel[0][0] == 'int':
-                src = root.tags['unique_of']
-                so2 = src.tags.get('sel_of')
-                rows = None
-                if so2 and so2[0].tags.get('role') == 'transitions' and so2[1][0][0] == 'idx' and isinstance(so2[1][0][1], tuple):
-                    try:
-                        rows = tuple(int(x) for x in so2[1][0][1])
-                    except ValueError:
-                        rows = None
-                return ('unique', sel[0][1], off, rows)
-            if 'inverse_of' in root.tags:
-                return ('inverse', root.tags['inverse_of'], off)
+            if root.ndim == 1 and len(sel) == 1 and sel[0][0] in ('int', 'all'):
+                if 'inverse_of' in root.tags:
+                    return ('inverse', root.tags['inverse_of'], off)
+                v = root                        # element (or all) of a vector: look at the vector
+                continue
+            if root.ndim == 2 and len(sel) == 2 and sel[0][0] == 'int' and sel[1][0] in ('int', 'all'):
+                r = sel[0][1]
+                if root.tags.get('role') == 'transitions':
+                    return ('transitions', r, off)
+                if 'unique_of' in root.tags:
+                    src = root.tags['unique_of']
+                    so2 = src.tags.get('sel_of')
+                    rows = None
+                    if so2 and so2[0].tags.get('role') == 'transitions' and so2[1][0][0] == 'idx' and isinstance(so2[1][0][1], tuple):
+                        try:
+                            rows = tuple(int(x) for x in so2[1][0][1])
+                        except ValueError:
+                            rows = None
+                    return ('unique', r, off, rows)
+        if 'inverse_of' in v.tags:
+            return ('inverse', v.tags['inverse_of'], off)
         break
     return None
 
@@ -347,6 +370,8 @@ def ulam_rule(run, repo, F):
             for k, (r, path) in enumerate(roots):
                 stores = r.tags.get('stores', [])
                 if not stores:
+                    if r.buf.writes:
+                        raise AnalysisError(f'{scen}: core {k} is written through a view (reshape / slice) whose stores the block analysis does not map back to the core')
                     bad.append(f'core {k} is never written')
                     continue
                 is_count = (k == 1)
